@@ -42,6 +42,8 @@ class RealRegistry:
         reg.metamodels = {}
 
         def factory(**kw):
+            if "refused_arg" in kw:          # kwargs the factory does not accept
+                raise TypeError("unexpected keyword argument 'refused_arg'")
             self.fresh += 1
             mm = self.MM()
             self.keep.append(mm)
@@ -99,8 +101,8 @@ class RealRegistry:
                 reg.clear_language_registrations()
                 v = ["-"]
             elif name == "MetamodelFor":
-                n, kw = args
-                mm = reg.metamodel_for_language(n, **({"some_arg": 1} if kw else {}))
+                n, kw, bad = args
+                mm = reg.metamodel_for_language(n, **(({"refused_arg": 1} if bad else {"some_arg": 1}) if kw else {}))
                 v = self.labels.get(id(mm), ["unknown-object"])
             elif name == "LanguagesForFile":
                 v = [d.name.lower() for d in reg.languages_for_file(args[0])]
